@@ -1337,6 +1337,38 @@ def header_lookup_atom(facts, c):
             return None
         lits = [x for a in call[2] for x in absint.str_consts(a)]
         return lits[0] if len(set(lits)) == 1 else None
+    def pure_name_tests(term):
+        """every closure in the term decides on the header's NAME alone: each of its branches is taken on the answer of the name comparison
+        (a closure that also looks at the value -- `equiv("Date") && parses(value)` -- finds something else than "the header of that name")"""
+        for x in absint.walk_terms(term):
+            if x and x[0] == "closure":
+                g = facts.fns.get(x[1])
+                if g is None:
+                    return False
+                for b in range(g.n):
+                    t = g.term(b)
+                    if g.blocks[b]["cleanup"] or t["t"] != "switch":
+                        continue
+                    o = g.origin(t["discr"])
+                    while o[0] == "unop" and o[1] == "Not":
+                        o = o[2]
+                    if o[0] == "discr":
+                        continue          # a match on an Option / enum inside the closure (e.g. on the item itself): not a second test
+                    if not (o[0] == "call" and re.search(r"HeaderField::equiv$|eq_ignore_ascii_case$|PartialEq.*::eq$", o[1])):
+                        return False
+                if g.local_ty(0) == "bool":
+                    # what a predicate answers is the name comparison itself or a constant (`a && b` answers b on one branch)
+                    for d in g.defs().get(0, []):
+                        if d[0] == "call":
+                            if not re.search(r"HeaderField::equiv$|eq_ignore_ascii_case$|PartialEq.*::eq$", call_name(d[2])):
+                                return False
+                        elif d[0] == "assign":
+                            o = g.origin_local(0) if False else (g.origin(d[3]["op"]) if d[3]["rv"] == "use" else ("unknown",))
+                            while o[0] == "unop" and o[1] == "Not":
+                                o = o[2]
+                            if not (o[0] == "const" or (o[0] == "call" and re.search(r"HeaderField::equiv$|eq_ignore_ascii_case$|PartialEq.*::eq$", o[1]))):
+                                return False
+        return True
     if c[0] == "variant" and c[2] in ("Some", "None") and c[3]:
         h = absint.head_call(c[3])
         if h is not None:
@@ -1345,7 +1377,7 @@ def header_lookup_atom(facts, c):
                 return (name, c[2] == "Some")
             if re.search(r"Iterator>::(find|next|find_map|position)$", h[1]):
                 lits = set(FRM.term_lits(facts, h))
-                if len(lits) == 1:
+                if len(lits) == 1 and pure_name_tests(h):
                     return (lits.pop(), c[2] == "Some")
     if c[0] == "scalar" and isinstance(c[2], bool):
         v, val = c[1], c[2]
@@ -1357,6 +1389,6 @@ def header_lookup_atom(facts, c):
                 return (name, val)
             if re.search(r"Iterator>::any$|Iterator>?::any(::<|$)", v[1]):
                 lits = set(FRM.term_lits(facts, v))
-                if len(lits) == 1:
+                if len(lits) == 1 and pure_name_tests(v):
                     return (lits.pop(), val)
     return None
